@@ -73,6 +73,8 @@ def _edit(node, op):
         return None
     if kind == "time" and type(node) is str and _looks_like_time(node):
         y, mo, d, h, mi, s = node[0:4], node[5:7], node[8:10], node[11:13], node[14:16], node[17:19]
+        if not all(x.isascii() and x.isdigit() for x in (y, mo, d, h, mi, s)):
+            return None     # already edited by an earlier mutation
         f = lambda y=y, mo=mo, d=d, h=h, mi=mi, s=s, T="T", Z="Z": "%s-%s-%s%s%s:%s:%s%s" % (y, mo, d, T, h, mi, s, Z)
         return {"month13": f(mo="13"), "day32": f(d="32"), "hour25": f(h="25"), "min60": f(mi="60"), "noZ": f(Z=""),
                 "offset": f(Z="+00:00"), "space_for_T": f(T=" "), "lower": f(T="t", Z="z"), "feb30": f(mo="02", d="30"),
